@@ -35,7 +35,7 @@ for c in $checks; do
   if [ $rc -eq 1 ]; then detected="$detected $c"; fi
   results="$results$c rc=$rc $first\n"
 done
-git -C /repo checkout -- . ; git -C /repo status --porcelain
+git -C /repo checkout -- . ; git -C /repo status --porcelain; git -C /verif checkout -- evidence
 printf "$results"
 echo "DETECTED BY:$detected"
 mkdir -p $DST
